@@ -10,12 +10,12 @@ out=$V/seeded/$id
 mkdir -p "$out"
 cp "$patch" "$out/patch.diff"; cp "$demo" "$out/demo.cpp"
 W=/tmp/seedconfirm_$id
-rm -rf "$W"; git -C /repo worktree prune; git -C /repo worktree add -q "$W" HEAD || exit 2
+rm -rf "$W"; flock /tmp/verif_worktree.lock git -C /repo worktree prune; flock /tmp/verif_worktree.lock git -C /repo worktree add -q "$W" HEAD || exit 2
 cd "$W"
 demo_flags="-std=gnu++17 -O2 -march=native -fopenmp -I$W/include $extra"
 g++ $demo_flags "$out/demo.cpp" -o "$W/demo_orig" -w > "$W/demo_orig.build.log" 2>&1
 ( cd "$W" && timeout 600 ./demo_orig > "$W/demo_orig.log" 2>&1 ); rc_orig=$?
-if ! git apply "$out/patch.diff"; then echo "{\"id\":\"$id\",\"applies\":false}" > "$out/confirm.json"; cd /; git -C /repo worktree remove --force "$W"; exit 1; fi
+if ! git apply "$out/patch.diff"; then echo "{\"id\":\"$id\",\"applies\":false}" > "$out/confirm.json"; cd /; flock /tmp/verif_worktree.lock git -C /repo worktree remove --force "$W"; exit 1; fi
 g++ $demo_flags "$out/demo.cpp" -o "$W/demo_mut" -w > "$W/demo_mut.build.log" 2>&1
 ( cd "$W" && timeout 600 ./demo_mut > "$W/demo_mut.log" 2>&1 ); rc_mut=$?
 cmake -G Ninja -B "$W/_build" -S "$W" -DCMAKE_BUILD_TYPE=RelWithDebInfo -DBUILD_EXAMPLES=OFF -DBUILD_PGM_TUNER=OFF -DBUILD_PGM_BENCHMARK=OFF > /dev/null 2>&1
@@ -29,5 +29,5 @@ json.dump({"id":idv,"applies":True,"demo_on_unchanged_tree_exit":int(rc_orig),"d
            "suite_with_change":suite.strip(),"suite_passes_with_change":"All tests passed" in suite and "45 test cases" in suite,
            "demo_unchanged_tail":lo.strip(),"demo_changed_tail":lm.strip()},open(out,'w'),indent=1)
 PY
-cd /; git -C /repo worktree remove --force "$W"; rm -rf "$W"
+cd /; flock /tmp/verif_worktree.lock git -C /repo worktree remove --force "$W"; rm -rf "$W"
 cat "$out/confirm.json" | head -12
